@@ -216,6 +216,30 @@ def flagProtocolOk : Bool :=
 
 theorem flag_protocol : flagProtocolOk = true := by decide +kernel
 
+/-- Gates and script bindings. No `if` that cuts a function short asks a bool-valued function
+from which a constant-name lookup (`FindObject "source"`, `MakeSymbol "…"` …) is reachable:
+what a name resolves to is state the sandboxed script controls (`(def source 0)`), so such a
+gate is not a sandbox boundary. (Table `scriptGates`; the constant names themselves are in
+`nameSites` and feed the two-text histories of the failing-input search.) -/
+theorem gates_do_not_depend_on_script_bindings :
+    ∀ g ∈ CallGraph.scriptGates, g.2 ∈ allowedGatePredicates := by decide +kernel
+
+/-- The sandbox gates read the flag FIELD. (1) The generator function of every special form in
+Spec.Prims.flagGatedForms, while it is still inside the certified set of a sandbox, contains an
+`if` whose condition reads the field itself; (2) StandardSetup registers the builders of
+Spec.Prims.flagGatedBindings only under `!flag` (label 1, which only a read of the field or of
+its trivial accessor produces). Replacing the field by a computed predicate (`mayReadFiles()`,
+a name lookup, a table size …) breaks this fact by name. Only demanded on a tree that has the
+flag. -/
+def sandboxGatesOk : Bool :=
+  CallGraph.sandboxFlag == "" ||
+  ((CallGraph.specialForms.all fun sf =>
+      !(flagGatedForms.contains sf.1) || !(CallGraph.certStd.testBit sf.2.2.1) ||
+      CallGraph.flagGuards.any fun g => g.2.1 == sf.2.2.1 && g.2.2 == "field")
+   && (CallGraph.stdBindings.all fun b => !(flagGatedBindings.contains b.1) || b.2.2.2 &&& 1 == 1))
+
+theorem sandbox_gates_read_the_flag_field : sandboxGatesOk = true := by decide +kernel
+
 /-- Host sites. What the command line wrapper (`main`, `usage`, `ReplMain`, `Repl`,
 `runScript` and the literals inside them) does to the outside world directly while
 `cfg.Sandboxed` holds is on the hand-written list of host behaviour (end of input, the script
